@@ -188,6 +188,9 @@ def reevaluate_cases(draw, tier):
         i = draw(st.integers(0, len(c['signals'][v]) - 1))
         edits.append([v, i, draw(F.values())])
     c['edits'] = edits
+    # the variables are fields of objects of a user-defined type (one object variable per signal): the caller edits the field
+    # of a sample object, or puts a new object into the sample, in place
+    c['struct'] = draw(st.sampled_from([None, None, 'value', 'pos.x']))
     return c
 
 
@@ -203,12 +206,33 @@ def check_reevaluate(case):
     feed = list(sig)
     text = dense_text(f, q)
     from ..monitors import build, exc_outcome
+    field = case.get('struct')
+    sig_t = to_time(sig, q)                     # the caller's lists: kept and edited in place
     try:
-        spec = build('ct_off', text, feed)
+        if field:
+            from ..structs import Msg
+            labels.append('object-valued-variables')
+
+            def rn(g):
+                if g[0] == 'var':
+                    return ('var', 'o_%s.%s' % (g[1].replace('$', 'd'), field))
+                return tuple(rn(x) if isinstance(x, tuple) else x for x in g)
+
+            def mk(x):
+                return Msg(value=x) if field == 'value' else Msg(a=x)
+            text = dense_text(rn(f), q)
+            spec = build('ct_off', text, [], parse=False)
+            spec.import_module('vlib.structs', 'Msg')
+            for v in feed:
+                spec.declare_var('o_' + v.replace('$', 'd'), 'Msg')
+            spec.parse()
+            obj_sig = {v: [[t, mk(x)] for t, x in sig_t[v]] for v in feed}
+            args = [['o_' + v.replace('$', 'd'), obj_sig[v]] for v in feed]
+        else:
+            spec = build('ct_off', text, feed)
+            args = [[v, sig_t[v]] for v in feed]
     except Exception as e:  # noqa
         return DISCARD('build-raises(C14/C17):' + type(e).__name__, labels)
-    sig_t = to_time(sig, q)                     # the caller's lists: kept and edited in place
-    args = [[v, sig_t[v]] for v in feed]
     hist = []
     changed = 0
     for step in range(len(case['edits']) + 1):
@@ -220,6 +244,13 @@ def check_reevaluate(case):
                 changed += 1
             sig[v][i][1] = float(x)
             sig_t[v][i][1] = float(x)
+            if field:
+                if step % 2:
+                    obj_sig[v][i][1] = mk(float(x))            # a new object in the old sample
+                elif field == 'value':
+                    obj_sig[v][i][1].value = float(x)          # the field of the old object
+                else:
+                    obj_sig[v][i][1].pos.x = float(x)
         try:
             K0, Kend, ref = ct_cells(f, {v: [tuple(s) for s in sig[v]] for v in feed})
         except Undefined:
